@@ -61,13 +61,13 @@ def run_attrs_check(pid, tier, seed, wd):
         sid = 0
         names = sorted(corpus)
         for n in names:
-            for _ in range(4 if thorough else 2):
+            for _ in range(40 if thorough else 2):
                 sid += 1
                 f = corpus[n]
-                s = random_script(rng, fx, [n], sid, 70 if thorough else 45, threads=3 if f["kind"] == "thread" else 2,
+                s = random_script(rng, fx, [n], sid, 100 if thorough else 45, threads=3 if f["kind"] == "thread" else 2,
                                   nkeys=5, registry=bool(f["tags"] or f["events"] or f["deps"]), stats=True)
                 scripts.append(s)
-        for _ in range(60 if thorough else 20):
+        for _ in range(1500 if thorough else 20):
             sid += 1
             ns = rng.sample(names, 3)
             scripts.append(random_script(rng, fx, ns, sid, 60, threads=2, nkeys=4, registry=True, stats=True))
